@@ -22,7 +22,7 @@ ASSUMPTIONS = ["no arithmetic content: the engine only enumerates the integer ar
                "an operation that plain Python lists refuse (IndexError/ValueError) may be refused; the state must then still "
                "be consistent"]
 LISTS = {"uj_steps": ("uj", ["step", "step3", "step_alt"]), "jobs": ("step", ["job", "job_alt", "job3"]),
-         "devices": ("up", ["dev", "dev2", "dev_alt"]), "usage_patterns": ("system", ["up", "up2"])}
+         "devices": ("up", ["dev", "dev_alt", "dev2"]), "usage_patterns": ("system", ["up", "up2"])}
 
 
 def _ids(objs_list):
@@ -199,8 +199,17 @@ def do_op(ctx, objs, owner, attr, pool, op, mirror, idx=None, cnt=None, pick=0):
     return r_real, r_plain
 
 
-def h_list_ops(ctx, attr, ops):
+def _spec16():
+    """T9 with two elements in every list link, so that removals leave survivors"""
     spec = M.T9(2)
+    spec["journeys"]["uj"]["steps"] = ["step", "step3"]
+    spec["steps"]["step"]["jobs"] = ["job", "job_alt"]
+    spec["patterns"]["up"]["devices"] = ["dev", "dev_alt"]
+    return spec
+
+
+def h_list_ops(ctx, attr, ops):
+    spec = _spec16()
     env = M.Env(ctx, {})
     objs = M.build(spec, env)
     owner, pool = LISTS[attr]
@@ -312,6 +321,12 @@ def plan(tier, seed):
     for c in ("system_of_foreign_pattern", "append_foreign_pattern", "foreign_server", "foreign_journey", "foreign_network",
               "foreign_job_in_step"):
         p.append(("two_systems", dict(case=c)))
+    # every removal followed by every other structural change (stale links show on the second operation)
+    removing = ["pop", "pop_last", "delitem", "remove", "setitem", "assign"]
+    for attr in LISTS:
+        for a in removing:
+            for b in removing + ["clear", "append"]:
+                p.append(("list_ops", dict(attr=attr, ops=[[a, 0], [b, 1]])))
     pairs = [(a, b) for a in OPS for b in OPS]
     rnd.shuffle(pairs)
     nb = 12 if tier == "quick" else 120
